@@ -71,7 +71,7 @@ TEXTS.update({
            TRUST + " Interleavings are sampled by the Go scheduler on 16 cores, not enumerated: race freedom is evidenced, not established.", "DESIGN.md §7 C07"),
  "C08": _t("rapid hostile-request generation against a panic-transparent copy of the router (chi.Walk) and box-level mutation of uploads to the receiver (hook); validity predicate (no panic, terminates, deliberate status, 4xx/404 classes, process survives, service continues); thorough tier adds coverage-guided fuzzing of the request generator (FuzzC08Server via rapid.MakeFuzz)",
            EXPL_NOTE + "Tens of thousands of requests per run over every URL key x hostile value, singly and pairwise, all endpoints and methods; panics are reported with value and first livesim2 frame.",
-           TRUST + " /debug, /metrics and the external /player proxy are excluded; upload bodies: declared sizes 16 MiB..4 GiB and table counts above 10^6 are cut (known finding KF-C08-rx-declared-counts); processes run under a 6 GiB address-space limit.", "DESIGN.md §7 C08, §13, §14.2"),
+           TRUST + " /debug, /metrics and the external /player proxy are excluded; upload bodies: declared sizes 16 MiB..4 GiB and table counts above 10^6 are cut (known finding KF-C08-rx-declared-counts); processes run under a 16 GiB address-space limit.", "DESIGN.md §7 C08, §13, §14.2"),
  "C17": _t("rapid-generated upload interleavings with an invariant evaluated after every upload (hook VerifQuiesce as observation point); bounded enumeration of all merges for 2x4 in the thorough tier",
            EXPL_NOTE + "Schedules in order, with gaps, duplicates, shuffled, late tracks, windows smaller and larger than the run, plus a catch-up suffix for bounded progress.",
            TRUST + " verif_hooks.go (build tag verif); unshifted uploads only; two open known findings (stragglers, fast track deletes listed segments).", "DESIGN.md §7 C17"),
